@@ -45,6 +45,18 @@ pub mod controls {
         std::time::Instant::now().elapsed().as_secs()
     }
 
+    // R3.3 control: a predicate decided by a rounded cross product
+    pub fn rounded_decision(a: Coord<f64>, b: Coord<f64>, c: Coord<f64>) -> bool {
+        let cross = (b.x - a.x) * (c.y - a.y) - (b.y - a.y) * (c.x - a.x);
+        cross > 0.0
+    }
+
+    // R3.5 control: predicate evaluated with the plain-formula kernel whatever the scalar type
+    pub fn wrong_kernel<T: geo::GeoFloat>(a: Coord<T>, b: Coord<T>, c: Coord<T>) -> bool {
+        use geo::kernels::{Kernel, Orientation, SimpleKernel};
+        <SimpleKernel as Kernel<T>>::orient2d(a, b, c) == Orientation::Collinear
+    }
+
     pub struct CRect {
         min: Coord<f64>,
         max: Coord<f64>,
